@@ -152,6 +152,18 @@ CHECKS = {
              "the libraries directly, so a change to xandikos' validate()/normalized() shows as a disagreement.",
         tech="Lean 4 proof parametric in the parser + differential correspondence with library oracle",
         ref="5/C14"),
+    "C16": dict(
+        text="Hrefs are modelled in Lean on top of the urllib/posixpath models (quote, unquote, urlsplit, split): an "
+             "emitted href is proved to decode to the path it was built from for every string, to contain no scheme, "
+             "query, fragment or space, a member href to split into (collection, name) for every clean name, the POST "
+             "Location to decode to collection/name, and a listing to hold exactly the blobs of the tree, each once. "
+             "Tied to /repo by predicting the exact text of every href in PROPFIND, query, sync-collection and Location "
+             "responses and by dereferencing each as sent through both front ends under three route prefixes.",
+        note="the XML serialisation, the front ends' request-target decoding (aiohttp/yarl, the WSGI PATH_INFO "
+             "convention) and dulwich's tree listing are exercised, not modelled; names with '/' or control characters "
+             "are outside the grammar; route prefixes are ASCII.",
+        tech="Lean 4 proof over a urllib/posixpath model + differential correspondence (href prediction and dereference)",
+        ref="5/C16"),
 }
 
 NOT_YET = {}
